@@ -58,7 +58,10 @@ pub const DEFAULT_HTTP_FAIL_WAIT_SEC: u64 = 1;
 #[cfg(feature = "breard_r_acmed_verif")]
 pub const DEFAULT_HTTP_FAIL_WAIT_SEC: u64 = 0;
 pub const DEFAULT_HOOK_ALLOW_FAILURE: bool = false;
+#[cfg(not(feature = "breard_r_acmed_verif"))]
 pub const DEFAULT_RENEW_FAIL_WAIT_SEC: u64 = 60;
+#[cfg(feature = "breard_r_acmed_verif")]
+pub const DEFAULT_RENEW_FAIL_WAIT_SEC: u64 = 2;
 pub const MAX_RATE_LIMIT_SLEEP_MILISEC: u64 = 3_600_000;
 pub const MIN_RATE_LIMIT_SLEEP_MILISEC: u64 = 100;
 
